@@ -30,12 +30,20 @@ macro_rules! harness_table_should_panic {
 pub mod bitseq;
 #[cfg(feature = "core")]
 pub mod ring;
+#[cfg(feature = "core")]
+pub mod mono;
+#[cfg(feature = "core")]
+pub mod xing;
+#[cfg(feature = "kh")]
+pub mod khgen;
 
 /// (table, should_panic) for the native runner
 #[cfg(not(kani))]
 pub fn all_tables() -> Vec<(&'static [(&'static str, fn(&mut src::Src) -> src::R)], bool)> {
     let mut v: Vec<(&'static [(&'static str, fn(&mut src::Src) -> src::R)], bool)> = vec![];
     #[cfg(feature = "core")]
-    { v.push((bitseq::BITSEQ, false)); v.push((bitseq::BITSEQ_REJECT, true)); v.push((ring::RING, false)); }
+    { v.push((bitseq::BITSEQ, false)); v.push((bitseq::BITSEQ_REJECT, true)); v.push((ring::RING, false)); v.push((mono::MONO, false)); v.push((xing::XING, false)); v.push((xing::XING_REJECT, true)); }
+    #[cfg(feature = "kh")]
+    { v.push((khgen::KHGEN, false)); }
     v
 }
